@@ -181,6 +181,89 @@ func loadBundleJS(e jsx.Engine, reg *template.Registry, js map[string]string) (s
 	return "", nil
 }
 
+// Ill-typed but compilable programs: every operator, function and reference form over every operand class - literals
+// above all (5.length is not JavaScript) - 150 expressions to a file. The compiler accepts them, so the generated
+// script has to be a script; what it does when called is not this property's business.
+const c14IllBatch = 150
+
+func c14IllTypedBatches(tier string) int {
+	n := len(c01Systematic())
+	if tier == "thorough" {
+		n *= 3
+	}
+	return (n + c14IllBatch - 1) / c14IllBatch
+}
+
+func c14IllTyped(ctx *fw.Ctx, e jsx.Engine, b int) fw.Result {
+	all := c01Systematic()
+	f := &ref.File{Name: "ill.soy", Namespace: "ill"}
+	for k := b * c14IllBatch; k < (b+1)*c14IllBatch; k++ {
+		c := all[k%len(all)]
+		pos := []int{0, 2, 4}[(k/len(all))%3] // print, if, let
+		if c.Pos >= 0 {
+			continue
+		}
+		ev, st := ref.Eval(c.E, ref.NewEnv(c.Data, &c01IJ, c01Globals))
+		body := c01Positions[pos].mk(c.E, ev, st)
+		if body == nil {
+			continue
+		}
+		vars := map[string]bool{}
+		exprVars(c.E, vars)
+		t := &ref.Template{Name: fmt.Sprintf("t%d", k), Body: body}
+		var names []string
+		for n := range vars {
+			names = append(names, n)
+		}
+		sortStrings(names)
+		for _, n := range names {
+			if n != "it" && n != "v" {
+				t.Params = append(t.Params, ref.ParamDecl{Name: n, Optional: true})
+			}
+		}
+		f.Templates = append(f.Templates, t)
+	}
+	if len(f.Templates) == 0 {
+		return fw.Result{Verdict: fw.Skip}
+	}
+	bnd := &ref.Bundle{Files: []*ref.File{f}, Globals: c01Globals}
+	files := bundleSources(bnd, ref.Layout{})
+	ctx.Cell("ill-typed-expressions")
+	reg, err := compileRegistry(files, bnd.Globals)
+	if err != nil {
+		// one expression the compiler rejects takes the batch with it: keep those it accepts alone
+		var good []*ref.Template
+		for _, t := range f.Templates {
+			one := &ref.Bundle{Files: []*ref.File{{Name: f.Name, Namespace: f.Namespace, Templates: []*ref.Template{t}}}, Globals: c01Globals}
+			if _, err := compileRegistry(bundleSources(one, ref.Layout{}), one.Globals); err == nil {
+				good = append(good, t)
+			} else {
+				ctx.Obs("illtyped_expressions_rejected_by_the_compiler", 1)
+			}
+		}
+		f.Templates = good
+		files = bundleSources(bnd, ref.Layout{})
+		if reg, err = compileRegistry(files, bnd.Globals); err != nil || len(good) == 0 {
+			return fw.Result{Verdict: fw.Skip}
+		}
+	}
+	ctx.Eval("ill:" + files[0].Text)
+	js, err := genJS(reg, soyjs.Options{})
+	if err != nil {
+		ctx.Obs("illtyped_generation_errors", 1)
+		return fw.Result{Verdict: fw.Held} // (an error value is an answer; C13/C08 look at those)
+	}
+	if file, err := loadBundleJS(e, reg, js); err != nil {
+		if _, isEng := err.(jsx.EngineError); isEng {
+			return fw.Result{Verdict: fw.Inconclusive, Key: "engine-failure", Msg: err.Error()}
+		}
+		return fw.Result{Verdict: fw.Violated, Key: "js-does-not-load:ill-typed", Case: map[string]interface{}{"files": files, "js": js[file]},
+			Msg: fmt.Sprintf("the compiler accepts %s but the JavaScript generated for it does not load: %v", file, fw.Trim(err.Error(), 300))}
+	}
+	ctx.Obs("illtyped_expressions_loaded", int64(len(f.Templates)))
+	return fw.Result{Verdict: fw.Held}
+}
+
 // literal sites: how a string that originates in the template reaches the output
 var c14Sites = []string{"css-name-with-base", "literal-block", "string-literal", "string-literal-concat", "map-key", "map-value", "css-name", "msg-text", "msg-text-translated", "global-string", "global-list", "global-map", "param-value-literal", "let-content-text", "switch-case-literal", "directive-arg-literal", "msg-desc", "msg-meaning"}
 
@@ -284,9 +367,9 @@ func init() {
 			"names): every file under ES5 loads and leaves a function at each template's qualified name, under ES6 parses and exports it. distinct = distinct (site, literal) / bundle; non-trivial = literal contains a character that needs escaping",
 		N: func(tier string) int {
 			if tier == "thorough" {
-				return nStr*len(c14Sites) + 300000 + 100000
+				return nStr*len(c14Sites) + 300000 + 100000 + c14IllTypedBatches(tier)
 			}
-			return nStr*len(c14Sites) + 6000 + 4000
+			return nStr*len(c14Sites) + 6000 + 4000 + c14IllTypedBatches(tier)
 		},
 		Setup: func(tier string, seed uint64, config string) string {
 			if _, err := engine(); err != nil {
@@ -300,8 +383,13 @@ func init() {
 			defer func() { ctx.Obs("generations_after_a_failed_one", atomic.SwapInt64(&genJSFailedFirst, 0)) }()
 			nLit := nStr * len(c14Sites)
 			nRandLit := 4000
+			nBundles := 6000
 			if ctx.Tier == "thorough" {
 				nRandLit = 100000
+				nBundles = 300000
+			}
+			if i >= nLit+nRandLit+nBundles {
+				return c14IllTyped(ctx, e, i-(nLit+nRandLit+nBundles))
 			}
 			if i < nLit+nRandLit {
 				var s, site string
